@@ -277,14 +277,7 @@ def expression_cases(ctx, sources):
             if any(a is None for a in ann):
                 ctx.count("skip:unannotated")
                 continue
-            try:
-                cv = ir_util.constant_value(e)
-                crashed = False
-            except KeyError:
-                crashed = True   # finding F17: constant_value has no entry for $upper_bound/$lower_bound
-            if crashed:
-                ctx.count("skip:constant_value-KeyError(F17)")
-                continue
+            cv = ir_util.constant_value(e)   # (raised KeyError for bound functions before fix 5ad5b76: finding F17)
             wt = e.type.which_type
             if cv is None:
                 cvt = "None"
@@ -430,11 +423,10 @@ def run(ctx):
         if seen >= 5:
             break
 
-    # --- replay of the refutation witness of assert_never_fires_refuted (finding F18) ---
+    # --- regression replay of finding F18 (zero-width integer leaf; repaired by fix 90ef553, theorem leaf_consistent) ---
     wit = '[$default byte_order: "LittleEndian"]\nstruct Foo:\n  0 [+0]  UInt  x\n  let y = x + 1\n'
     try:
         compile_for_bounds(wit)
-        ctx.note("witness of assert_never_fires_refuted no longer crashes the implementation: the refuted theorem should become a positive one")
     except AssertionError as ex:
         ctx.violation("bounds-assert:zero-width-leaf", "expression_bounds' own assertion fires on a zero-width integer field",
                       dict(kind="module", module=wit, exception=repr(ex)), found_input=True)
